@@ -2,7 +2,6 @@
 
 from __future__ import annotations
 
-from functools import lru_cache
 from ipaddress import NetmaskValueError, IPv4Address, IPv4Network
 from itertools import product
 
@@ -40,6 +39,7 @@ class Wildcard(Base):
         """
         self.ipnet: OIpNet = None  # IPv4Network of contiguous wildcard
         self._ncwb: LInt = []  # non-contiguous wildcard bits
+        self._ipnets: LIpNet = []  # memoized result of ipnets(), valid for the current line
         self._prefixlen: int = 0  # Prefix length of contiguous wildcard
         super().__init__(**kwargs)  # platform, note
         self.max_ncwb: int = init_max_ncwb(**kwargs)
@@ -83,6 +83,7 @@ class Wildcard(Base):
         self.ipnet = self._create_ipnet()
         self._ncwb = ncwb
         self._prefixlen = prefixlen
+        self._ipnets = []
 
     @property
     def max_ncwb(self) -> int:
@@ -185,7 +186,6 @@ class Wildcard(Base):
             data["uuid"] = self.uuid
         return data
 
-    @lru_cache
     def ipnets(self) -> LIpNet:
         """List of IPv4Network that match this wildcard.
 
@@ -195,6 +195,8 @@ class Wildcard(Base):
             wildcard.ipnets() -> [IPv4Network("10.0.0.0/30"),
                                   IPv4Network("10.0.1.0/30")]
         """
+        if self._ipnets:
+            return list(self._ipnets)
         ipnets: LIpNet = []
         prefix_i = int(self._prefix)
         repeat = len(self._ncwb)
@@ -208,7 +210,8 @@ class Wildcard(Base):
                     prefix_i_ &= ~mask
             ipnet = IPv4Network((prefix_i_, self._prefixlen))
             ipnets.append(ipnet)
-        return ipnets
+        self._ipnets = ipnets
+        return list(ipnets)
 
     # =========================== helper =============================
 
